@@ -86,6 +86,7 @@ struct Dumper<'tcx> {
     max_depth: usize,
     adts_seen: HashSet<DefId>,
     ext_adts: Vec<J>,
+    cur_depth: usize,
 }
 
 fn allow_external(path: &str) -> bool {
@@ -152,6 +153,7 @@ impl<'tcx> Dumper<'tcx> {
             max_depth,
             adts_seen: HashSet::new(),
             ext_adts: vec![],
+            cur_depth: 0,
         }
     }
 
@@ -853,6 +855,7 @@ impl<'tcx> Dumper<'tcx> {
         key: &str,
     ) -> J {
         let tcx = self.tcx;
+        self.cur_depth = depth;
         let mut locals = vec![];
         for (l, decl) in body.local_decls.iter_enumerated() {
             let t = self.subst(inst, tenv, decl.ty);
@@ -1217,11 +1220,16 @@ impl<'tcx> Dumper<'tcx> {
                     ("ty", J::Int(self.ty(at) as i128)),
                 ])
             }
-            Rvalue::UnaryOp(op, o) => J::obj(vec![
-                ("k", J::s("unop")),
-                ("op", J::s(format!("{:?}", op))),
-                ("o", self.operand(inst, tenv, body, o)),
-            ]),
+            Rvalue::UnaryOp(op, o) => {
+                let ot = o.ty(&body.local_decls, tcx);
+                let ot = self.subst(inst, tenv, ot);
+                J::obj(vec![
+                    ("k", J::s("unop")),
+                    ("op", J::s(format!("{:?}", op))),
+                    ("o", self.operand(inst, tenv, body, o)),
+                    ("ty", J::Int(self.ty(ot) as i128)),
+                ])
+            }
             Rvalue::Discriminant(p) => {
                 let pt = self.place_ty(inst, tenv, body, *p);
                 J::obj(vec![
@@ -1249,6 +1257,12 @@ impl<'tcx> Dumper<'tcx> {
                     }
                     AggregateKind::Closure(did, args) => {
                         let args = self.subst(inst, tenv, *args);
+                        // the closure body instantiated for these arguments (closure types print without their
+                        // generic arguments, so callers' instance keys cannot be relied on to reach it)
+                        if self.cur_depth < self.max_depth {
+                            let ci = Instance::new_raw(*did, args);
+                            self.queue.push_back((ci, tenv, self.cur_depth + 1));
+                        }
                         // enqueue closure body instance so that its MIR is available instantiated
                         J::obj(vec![
                             ("k", J::s("closure")),
